@@ -216,8 +216,12 @@ def main():
             elif kind == "xsearch":
                 _, a = c
                 st = _dec(a.get("settings"))
-                r = search_dates(a["s"], languages=a.get("languages"), settings=st)
-                conc = "None" if r is None else "[" + ", ".join("(%r, %s)" % (x, norm_dt(y)) for x, y in r) + "]"
+                if a.get("adl"):        # with the detected language reported
+                    r = search_dates(a["s"], languages=a.get("languages"), settings=st, add_detected_language=True)
+                    conc = "None" if r is None else "[" + ", ".join("(%r, %s, %s)" % (x, norm_dt(y), z) for x, y, z in r) + "]"
+                else:
+                    r = search_dates(a["s"], languages=a.get("languages"), settings=st)
+                    conc = "None" if r is None else "[" + ", ".join("(%r, %s)" % (x, norm_dt(y)) for x, y in r) + "]"
                 untouched = True
             else:
                 raise ValueError(kind)
